@@ -516,7 +516,7 @@ def run(ctx):
     corpus(ctx)
     rng = ctx.rng
     if ctx.quick():
-        n, max_n, max_m = 2600, 6, 6
+        n, max_n, max_m = 5000, 6, 6
     else:
         n, max_n, max_m = 110000, 8, 8
     for _ in range(n):
